@@ -1,0 +1,13 @@
+//go:build verif
+
+// Round 7: logFatal (possible since the engine has the `noreturn` clause, see internal/lg/zz_contracts_r7_verif.go). Comment-only file.
+
+package main
+
+// logFatal: never returns (it ends in lg.LogFatal, which exits the process): a start-up step that reports its failure through it does not
+// continue. The callers (Start, Start$1, main) use this contract instead of inlining the body down to os.Exit.
+//@ func logFatal(f string, args ...interface{})
+//@   props C14 C15
+//@   noreturn
+//@   modifies
+//@   nochan
